@@ -57,7 +57,7 @@ def named_schedules(seed):
     # graceful close are in flight behind it, the end of its stream
     out.append({"id": "named/tcp/stale-close-of-a-forgotten-sibling", "transport": "tcp", "mtu": 1400, "seed": seed, "multiplex": 100,
                 "s2clat": 6000, "limit": 900, "notx": 2,
-                "sessions": [{"c": [["w", 10], ["sleep", 50], ["close"]], "s": [["rall"]]},
+                "sessions": [{"c": [["w", 10], ["sleep", 50], ["close"]], "s": [["w", 5], ["rall"]]},   # the server answers X at once: its open response is in flight when X is forgotten
                              {"c": [["w", 1], ["rall", 65536]], "s": [["rn", 1], ["sleep", 300], ["w", 20000], ["sleep", 100], ["w", 30000], ["close"]]}]})
     # TCP: backlog larger than recvQueue + recvChan when the close request arrives
     # (recvQueue 4096 + the segment held by the input loop + recvChan 256, +1 taken by the harness's first read)
